@@ -303,6 +303,14 @@ func (s *sim) validBytes(id int) []byte {
 		if s.rng.Intn(3) == 0 {
 			r.AddOption(dhcpv6.OptClientLinkLayerAddress(1, net.HardwareAddr{2, 0, 0, byte(depth), byte(id >> 8), byte(id)}))
 		}
+		if s.rng.Intn(3) == 0 {
+			// a relay that does not use the well-known port says so (RFC 8357); what the server does with it is the handler's business:
+			// the peer handed to the handler is the sender of the datagram
+			r.AddOption(dhcpv6.OptRelayPort([]uint16{0, 547, 546, 1547, 65535, uint16(1024 + id)}[s.rng.Intn(6)]))
+		}
+		if s.rng.Intn(4) == 0 {
+			r.MessageType = dhcpv6.MessageTypeRelayReply // (a server that sits behind another server's relay sees these too)
+		}
 		d = r
 	}
 	if s.rng.Intn(6) == 0 {
